@@ -16,7 +16,7 @@ const (
 	rC14Op   = "ORDABS.operator-window"
 	rC14Bind = "ORDABS.interval-binding"
 	rC14Head = "ORDABS.head-time"
-	rC14Flow = "ORD.head-interval-flow"
+	rC14Flow = "ORDABS.head-interval-flow"
 	rC14Rel  = "ORDABS.interval-relations"
 	rC14Fld  = "TABLE.clause-field-completeness"
 )
@@ -26,7 +26,7 @@ func checkC14(c *core.Ctx) {
 	c.Rule(rC14Op, "each operator evaluator, read from source and evaluated against a stub store that answers GetFactsDuring by closed-interval overlap and GetAllFacts by everything, over all small windows [d1<=d2], evaluation time 10 and fact intervals (finite, left-/right-unbounded): a diamond yields exactly the facts that hold at some instant of the window, a box exactly those whose interval covers it; the window lies d2..d1 before (minus) resp. d1..d2 after (plus) the evaluation time; 'now' resolves to the evaluation time; intervalContains(a,b) is a.start <= b.start && b.end <= a.end with -inf/+inf; an annotation with unbound variables enumerates every stored interval of a matching atom and binds both ends; a concrete annotation matches facts covering it and never disjoint ones", 6)
 	c.Rule(rC14Bind, "bindIntervalVariables unifies the start variable with the fact's start time and the end variable with its end time", 1)
 	c.Rule(rC14Head, "ResolveHeadTime maps timestamp, now, -inf/+inf and variables bound to number or time constants to the start and end of the result in that order, and fails on an unbound variable", 1)
-	c.Rule(rC14Flow, "the interval resolved from the head annotation is the one attached to every derived fact, and the one passed to temporalStore.Add", 3)
+	c.Rule(rC14Flow, "decided by evaluation of the source, not by its shape: oneStepEvalClause attaches to every derived fact the interval that ResolveHeadTime returns for the clause's own head annotation (stub premises, stub resolver); (*engine).eval over six abstract programs whose facts all live in the temporal store under one interval stores every derived fact with that interval and ends with the least model; evalStrata stores annotated initial facts with their own interval", 3)
 	c.Rule(rC14Rel, "DecideTemporalPredicate, evaluated for all orderings of the four end points, equals the documented definition of each of the nine interval relations; converse pairs follow from that", 9)
 	c.Rule(rC14Fld, "a function that builds a clause from another clause keeps its HeadTime, and one that rebuilds a temporal literal keeps Literal, Operator and Interval (a delta rule without them is a different rule)", 4)
 	k := newTkit(c, rC14Op)
@@ -368,6 +368,23 @@ func c14Operators(c *core.Ctx, k *tkit) {
 			}
 			return []ordabs.Value{nil}, nil
 		}
+		in.Stubs["factstore.ReadOnlyTemporalFactStore.GetFactsAt"] = func(in *ordabs.Interp, _ ordabs.Value, args []ordabs.Value) ([]ordabs.Value, error) {
+			t, isT := args[1].(ordabs.TimeVal)
+			if !isT {
+				return nil, &ordabs.Unsupported{What: "GetFactsAt called with a non-time"}
+			}
+			queried = append(queried, fixFact{k.TS, t.NS, k.TS, t.NS})
+			for _, x := range facts {
+				if x.lo(k) <= t.NS && t.NS <= x.hi(k) {
+					if out, err := in.CallValue(args[2], []ordabs.Value{mkTF(x)}); err != nil {
+						return nil, err
+					} else if out[0] != nil {
+						return out, nil
+					}
+				}
+			}
+			return []ordabs.Value{nil}, nil
+		}
 		in.Stubs["factstore.ReadOnlyTemporalFactStore.GetAllFacts"] = func(in *ordabs.Interp, _ ordabs.Value, args []ordabs.Value) ([]ordabs.Value, error) {
 			for _, x := range facts {
 				if out, err := in.CallValue(args[1], []ordabs.Value{mkTF(x)}); err != nil {
@@ -449,8 +466,49 @@ func c14Operators(c *core.Ctx, k *tkit) {
 				}
 			}
 		}
+		// with an annotation @[S,E] on the literal: the variables are bound from the matching fact's own interval
+		ann := &cond{name: "annotation-binds-fact-interval"}
 		if ok {
-			c.Check(sem.bad == "" && now.bad == "", rC14Op, f.Name, f.Decl.Pos(), fmt.Sprintf("agrees with the documented meaning on %d window/fact combinations", n), strings.TrimSpace(sem.bad+" "+now.bad))
+			annIv := k.iv(k.TS, 0, k.TS, 0)
+			annIv.Fields["__id"] = "annotation"
+			var bound []string
+			in.Stubs["engine.TemporalEvaluator.bindIntervalVariables"] = func(in *ordabs.Interp, _ ordabs.Value, args []ordabs.Value) ([]ordabs.Value, error) {
+				q, _ := args[0].(*ordabs.Rec)
+				fi, okf := recInterval(k, args[1])
+				id := "?"
+				if q != nil {
+					id = fmt.Sprint(q.Fields["__id"])
+				}
+				if !okf {
+					return nil, &ordabs.Unsupported{What: "bindIntervalVariables called with a non-interval"}
+				}
+				bound = append(bound, fmt.Sprintf("%s<-[%d,%d]", id, fi.s, fi.e))
+				return []ordabs.Value{args[2]}, nil
+			}
+			annPtr := &ordabs.Obj{Name: "annotation", Fields: annIv.Fields, T: "ast.Interval"}
+			for _, x := range []fixFact{{k.TS, 5, k.TS, 15}, {k.TS, 7, k.TS, 14}} {
+				facts = []fixFact{x}
+				bound = nil
+				in.Reset()
+				out, err := in.Call(f, te, []ordabs.Value{az, k.iv(k.DUR, 1, k.DUR, 2), annPtr, subst})
+				if !runORD(c, rC14Op, f.Name, f, err) {
+					ok = false
+					break
+				}
+				sl, _ := out[0].(*ordabs.Slice)
+				nsol := 0
+				if sl != nil {
+					nsol = len(*sl.Elems)
+				}
+				want := fmt.Sprintf("annotation<-[%d,%d]", x.s, x.e)
+				if (nsol != 1 || len(bound) != 1 || bound[0] != want) && ann.bad == "" {
+					ann.bad = fmt.Sprintf("window [1,2] with an annotation @[S,E] over the fact interval [%d,%d]: %d solution(s), interval variables bound from %v, want one solution bound from %s (the stored interval of the matching fact, not the window)", x.s, x.e, nsol, bound, want)
+				}
+			}
+			delete(in.Stubs, "engine.TemporalEvaluator.bindIntervalVariables")
+		}
+		if ok {
+			c.Check(sem.bad == "" && now.bad == "" && ann.bad == "", rC14Op, f.Name, f.Decl.Pos(), fmt.Sprintf("agrees with the documented meaning on %d window/fact combinations; annotation variables are bound from the matching fact's interval", n), strings.TrimSpace(sem.bad+" "+now.bad+" "+ann.bad))
 		}
 	}
 }
@@ -583,98 +641,134 @@ func c14HeadTime(c *core.Ctx, k *tkit) {
 	}
 }
 
+// c14Flow decides the path of a rule-head interval by evaluation, not by the shape of the code:
+// oneStepEvalClause attaches to every derived fact the interval ResolveHeadTime returns for the clause's
+// own head annotation; the fixpoint loop stores each derived temporal fact with that interval (temporal
+// mode of the engine fixture); evalStrata stores annotated initial facts with their own interval.
 func c14Flow(c *core.Ctx) {
-	f := c.MustFunc(rC14Flow, "engine", "engine.oneStepEvalClause")
-	if f != nil {
-		info := f.Pkg.TypesInfo
-		// every DerivedTemporalFact literal uses Interval: <ident>, and that ident is assigned only from nil-zero or ResolveHeadTime(clause.HeadTime, ...)
-		var lits []*ast.CompositeLit
-		ast.Inspect(f.Decl.Body, func(n ast.Node) bool {
-			if cl, ok := n.(*ast.CompositeLit); ok && core.TypeName(info.TypeOf(cl)) == "engine.DerivedTemporalFact" {
-				lits = append(lits, cl)
+	if f := c.MustFunc(rC14Flow, "engine", "engine.oneStepEvalClause"); f != nil {
+		k := &astKit{c: c, ok: true}
+		in := ordabs.New(c.Prog)
+		in.InstallTimeStubs()
+		subst := func() ordabs.Value { return &ordabs.Rec{Fields: map[string]ordabs.Value{}, T: "unionfind.UnionFind"} }
+		in.Stubs["unionfind.New"] = func(in *ordabs.Interp, _ ordabs.Value, _ []ordabs.Value) ([]ordabs.Value, error) {
+			return []ordabs.Value{subst()}, nil
+		}
+		fan := 2
+		in.Stubs["engine.engine.oneStepEvalPremise"] = func(in *ordabs.Interp, _ ordabs.Value, _ []ordabs.Value) ([]ordabs.Value, error) {
+			var out []ordabs.Value
+			for i := 0; i < fan; i++ {
+				out = append(out, subst())
 			}
-			return true
-		})
-		if len(lits) == 0 {
-			c.Unres(rC14Flow, f.Name, f.Decl.Pos(), "no DerivedTemporalFact literal found")
+			return []ordabs.Value{&ordabs.Slice{Elems: &out}, nil}, nil
+		}
+		in.Stubs["functional.EvalAtom"] = func(in *ordabs.Interp, _ ordabs.Value, args []ordabs.Value) ([]ordabs.Value, error) {
+			return []ordabs.Value{args[0], nil}, nil
+		}
+		in.Stubs["ast.Atom.String"] = func(in *ordabs.Interp, _ ordabs.Value, _ []ordabs.Value) ([]ordabs.Value, error) {
+			return []ordabs.Value{"<atom>"}, nil
+		}
+		ht := &ordabs.Obj{Name: "head-time", Fields: k.zero("ast", "Interval").Fields, T: "ast.Interval"}
+		resolved := &ordabs.Obj{Name: "resolved", Fields: k.zero("ast", "Interval").Fields, T: "ast.Interval"}
+		failResolve := false
+		sawArg := ""
+		in.Stubs["engine.ResolveHeadTime"] = func(in *ordabs.Interp, _ ordabs.Value, a []ordabs.Value) ([]ordabs.Value, error) {
+			sawArg = objName(a[0])
+			if failResolve {
+				return []ordabs.Value{(*ordabs.Obj)(nil), ordabs.ErrVal{Tag: "unresolvable"}}, nil
+			}
+			return []ordabs.Value{resolved, nil}, nil
+		}
+		mk := func(withHT bool) (*ordabs.Obj, *ordabs.Rec) {
+			opts := k.zero("engine", "EvalOptions")
+			eng := k.zero("engine", "engine")
+			eng.Fields["options"] = opts
+			eng.Fields["predToDecl"] = ordabs.NewMap()
+			eng.Fields["store"] = &ordabs.Obj{Name: "store", Opaque: true}
+			eng.Fields["evalTime"] = ordabs.TimeVal{NS: 10}
+			cl := k.zero("ast", "Clause")
+			cl.Fields["Head"] = k.atom("p", 1)
+			prem := []ordabs.Value{k.atom("q", 1)}
+			cl.Fields["Premises"] = &ordabs.Slice{Elems: &prem}
+			if withHT {
+				cl.Fields["HeadTime"] = ht
+			}
+			return &ordabs.Obj{Name: "engine", Fields: eng.Fields}, cl
 		}
 		bad := ""
-		var ivObj any
-		for _, cl := range lits {
-			found := false
-			for _, el := range cl.Elts {
-				kv, ok := el.(*ast.KeyValueExpr)
-				if !ok || kv.Key.(*ast.Ident).Name != "Interval" {
-					continue
+		if k.ok {
+			for _, withHT := range []bool{true, false} {
+				eng, cl := mk(withHT)
+				in.Reset()
+				sawArg = ""
+				out, err := in.Call(f, eng, []ordabs.Value{cl})
+				if !runORD(c, rC14Flow, f.Name, f, err) {
+					return
 				}
-				id, ok := ast.Unparen(kv.Value).(*ast.Ident)
-				if !ok {
-					bad = "Interval field is " + core.Src(c.Prog.Fset, kv.Value) + ", not the resolved interval variable"
-					continue
+				sl, _ := out[0].(*ordabs.Slice)
+				n := 0
+				if sl != nil {
+					for _, d := range *sl.Elems {
+						n++
+						iv, _ := d.(*ordabs.Rec).Fields["Interval"].(*ordabs.Obj)
+						if withHT && iv != resolved && bad == "" {
+							bad = fmt.Sprintf("a rule with a head annotation derives a fact whose interval is %s, not the one resolved from the annotation", objName(iv))
+						}
+						if !withHT && iv != nil && bad == "" {
+							bad = "a rule without head annotation derives a fact with an interval"
+						}
+					}
 				}
-				found = true
-				ivObj = info.Uses[id]
+				if n != fan && bad == "" {
+					bad = fmt.Sprintf("%d solutions give %d derived facts", fan, n)
+				}
+				if withHT && sawArg != "head-time" && bad == "" {
+					bad = "ResolveHeadTime is called with " + sawArg + ", not with the clause's own head annotation"
+				}
 			}
-			if !found && bad == "" {
-				bad = "a derived fact is built without its Interval at " + c.Prog.Pos(cl.Pos())
+			failResolve = true
+			eng, cl := mk(true)
+			in.Reset()
+			out, err := in.Call(f, eng, []ordabs.Value{cl})
+			if !runORD(c, rC14Flow, f.Name, f, err) {
+				return
+			}
+			if _, isErr := out[1].(ordabs.ErrVal); !isErr && bad == "" {
+				bad = "a head annotation that cannot be resolved does not make the rule evaluation fail"
 			}
 		}
-		if ivObj != nil {
-			ast.Inspect(f.Decl.Body, func(n ast.Node) bool {
-				as, ok := n.(*ast.AssignStmt)
-				if !ok {
-					return true
-				}
-				for i, l := range as.Lhs {
-					id, ok := l.(*ast.Ident)
-					if !ok || (info.Uses[id] != ivObj && info.Defs[id] != ivObj) {
-						continue
-					}
-					var rhs ast.Expr
-					if len(as.Rhs) == 1 {
-						rhs = as.Rhs[0]
-					} else {
-						rhs = as.Rhs[i]
-					}
-					call, ok := ast.Unparen(rhs).(*ast.CallExpr)
-					if !ok || core.CallName(info, call) != "engine.ResolveHeadTime" || core.FieldSel(info, call.Args[0]) != "Clause.HeadTime" {
-						bad = "the interval variable is assigned from " + core.Src(c.Prog.Fset, rhs) + " instead of ResolveHeadTime(clause.HeadTime, ...)"
-					}
-				}
-				return true
-			})
-		}
-		c.Check(bad == "" && len(lits) > 0, rC14Flow, f.Name, f.Decl.Pos(), fmt.Sprintf("%d derived-fact literals carry the interval resolved from clause.HeadTime", len(lits)), bad)
+		c.Check(bad == "" && k.ok, rC14Flow, f.Name, f.Decl.Pos(), "every derived fact carries the interval resolved from the clause's head annotation (none without annotation); resolution failure is an error", bad)
 	}
-	for _, nm := range []string{"engine.eval", "engine.evalStrata"} {
-		f := c.MustFunc(rC14Flow, "engine", nm)
-		if f == nil {
-			continue
-		}
-		info := f.Pkg.TypesInfo
-		calls := core.FindCalls(info, f.Decl.Body, true, "factstore.TemporalFactStore.Add")
-		bad := ""
-		for _, call := range calls {
-			arg := core.Src(c.Prog.Fset, call.Args[1])
-			okArg := false
-			if st, ok := ast.Unparen(call.Args[1]).(*ast.StarExpr); ok {
-				if core.FieldSel(info, st.X) == "DerivedTemporalFact.Interval" {
-					okArg = true
-				}
-				if id, ok := ast.Unparen(st.X).(*ast.Ident); ok && id.Name == "interval" {
-					okArg = true // evalStrata: interval := InitialFactTimes[i]
+	if f := c.MustFunc(rC14Flow, "engine", "engine.eval"); f != nil {
+		bad, n := "", 0
+		for _, p := range absPrograms() {
+			e := newEngineFixMode(c, rC14Flow, p, 0, true)
+			if e == nil {
+				return
+			}
+			final, isErr, returned, err := e.runEval(f, 400000)
+			if !runORD(c, rC14Flow, f.Name, f, err) {
+				return
+			}
+			n++
+			want := p.leastModel(1000)
+			miss, extra := diffSets(final, want)
+			switch {
+			case bad != "":
+			case !returned || isErr:
+				bad = fmt.Sprintf("program %s over temporal facts: the loop did not return normally (returned=%v, error=%v)", p.name, returned, isErr)
+			case len(miss) > 0 || len(extra) > 0:
+				bad = fmt.Sprintf("program %s over temporal facts of one interval: the temporal store lacks %v and has %v beyond the least model (the temporal delta store must be renewed and consulted each round)", p.name, miss, extra)
+			}
+			for _, a := range e.tAdds {
+				if !strings.HasSuffix(a, "@iv") && bad == "" {
+					bad = "a derived temporal fact is stored as " + a + ", not with the interval it was derived with"
 				}
 			}
-			if !okArg && bad == "" {
-				bad = "temporalStore.Add receives " + arg + " at " + c.Prog.Pos(call.Pos()) + ", not the derived fact's own interval"
-			}
 		}
-		if len(calls) == 0 {
-			c.Unres(rC14Flow, f.Name, f.Decl.Pos(), "no temporal store Add found")
-			continue
-		}
-		c.Check(bad == "", rC14Flow, f.Name, f.Decl.Pos(), fmt.Sprintf("%d temporal Add calls store the fact's own interval", len(calls)), bad)
+		c.Check(bad == "", rC14Flow, f.Name, f.Decl.Pos(), fmt.Sprintf("%d abstract programs over temporal facts: every derived fact is stored with its own interval and the temporal store ends as the least model", n), bad)
 	}
+	strataInitialFactsRule(c, rC14Flow)
 }
 
 func c14Relations(c *core.Ctx, k *tkit) {
